@@ -43,8 +43,16 @@ def replay(hist):
     obs.append(p)
     if p != expected(hist[0]["res"]):
         return obs, {"step": 0, "what": "initial graph differs", "got": p, "want": expected(hist[0]["res"])}
+    def warm(g):
+        """ask every observer once: whatever an object memoises must not leak into the objects derived from it"""
+        for l in list(g.labels):
+            g.get_label(l)
+            g.has_label(l) if hasattr(g, "has_label") else None
+        g.n_labels, g.n_points
+
     for k, ev in enumerate(hist[1:], 1):
         op, arg = ev["op"], ev["arg"]
+        warm(cur)
         before = project(cur)
         err = ""
         res = None
@@ -87,6 +95,13 @@ def replay(hist):
         if p != want:
             return obs, {"step": k, "op": op, "arg": arg, "what": "result differs from the specification", "got": p, "want": want}
         if op != "get_label":
+            # reading each label of the RESULT gives that label's points of the result (not of the graph it was derived from)
+            for l in res.labels:
+                sub = res.get_label(l)
+                m = np.asarray(res._labels_to_masks[l], dtype=bool)
+                if sub.n_points != int(m.sum()) or not np.array_equal(sub.points, res.points[m]):
+                    return obs, {"step": k, "op": op, "arg": arg, "what": "get_label(%r) on the result does not return the result's points under that label" % l}
+        if op != "get_label":
             # independence: the new graph shares no mask / point buffer with the receiver
             if any(np.shares_memory(res._labels_to_masks[n], cur._labels_to_masks[m]) for n in res.labels for m in cur.labels) or \
                     np.shares_memory(res.points, cur.points):
@@ -102,7 +117,7 @@ def labellers():
     out = []
     for name in sorted(dir(ll)):
         f = getattr(ll, name)
-        m = re.search(r"_(\d+)_to_", name)
+        m = re.search(r"_(\d+)(?:_mirrored)?_to_", name)
         if callable(f) and m and hasattr(f, "group_label") and not name.startswith("bounding_box"):
             out.append((name, f, int(m.group(1))))
     return out
